@@ -723,6 +723,39 @@ def check_axes(rep):
     return meth
 
 
+STRAIGHT = ["fd_map", "map1", "map2", "map3", "FiniteDifference.d3x", "FiniteDifference.d3y",
+            "FiniteDifference.d3z", "FiniteDifference.d3_periodic",
+            "FiniteDifference.d3_symmetric", "FiniteDifference.d3_onesided",
+            "FiniteDifference.d3_scalar"] + [
+    f"FiniteDifference.d3{ax}_rank{n}tensor" for ax in ("", "x", "y", "z") for n in (1, 2, 3)]
+
+
+def check_straight_line(rep):
+    """The operators above must be straight-line code: no data- or mode-dependent shortcut
+    may bypass the stencil application that the other rules verify (a branch returning early
+    would make the verified path one of several)."""
+    S = rep.sources
+    for qual in STRAIGHT:
+        fn = S.function(FD, qual)
+        bad = []
+        nret = 0
+        for st in fn.body:
+            if isinstance(st, ast.Expr) and isinstance(st.value, ast.Constant):
+                continue
+            if isinstance(st, ast.Assign) and all(isinstance(t, ast.Name) for t in st.targets):
+                continue
+            if isinstance(st, ast.Return):
+                nret += 1
+                continue
+            bad.append(type(st).__name__ + ": " + norm_src(st)[:50])
+        for node in ast.walk(fn):
+            if isinstance(node, ast.IfExp):
+                bad.append("conditional expression: " + norm_src(node)[:50])
+        rep.check(not bad and nret == 1, "straight-line", f"{FD}::{qual}",
+                  "operator is not straight-line code (single return, no branches): "
+                  + "; ".join(bad), node=fn)
+
+
 def run(rep):
     rep.explanation = (
         "Proof-style static decision of C07: every stencil body is parsed to an exact rational "
@@ -739,7 +772,9 @@ def run(rep):
     check_dispatch(rep, stencils)
     check_splices(rep, stencils)
     check_axes(rep)
+    check_straight_line(rep)
     rep.floor("stencil-moment", 72)
+    rep.floor("straight-line", 20)
     rep.floor("dispatch-table", 12)
     rep.floor("onesided-cover", 4)
     rep.floor("periodic-extension", 4)
